@@ -111,8 +111,8 @@ class FindInConstants(FindByGlob):
                 debug(f'Generated Sid "{result}" is not valid, skipped (used {self.key}:{value})')
                 continue
 
-            if result not in done:
-                # done.add(result)
+            if str(result) not in done:
+                done.add(str(result))
                 if as_sid:
                     yield result
                 else:
@@ -134,8 +134,8 @@ class FindInConstants(FindByGlob):
             # nothing to search, we yield
             if "*" not in str(root):
 
-                if root not in done:
-                    # done.add(root)  # TODO: useful ?
+                if str(root) not in done:
+                    done.add(str(root))  # several typed searches may come down to the same root
                     if as_sid:
                         yield root
                     else:
@@ -155,8 +155,8 @@ class FindInConstants(FindByGlob):
                     # we can simply yield the parent and the key's value
                     if root.get(self.key) != "*":
                         result = found_root / root.get(self.key)
-                        if result not in done:
-                            # done.add(result)
+                        if str(result) not in done:
+                            done.add(str(result))
                             if as_sid:
                                 yield result
                             else:
